@@ -151,4 +151,4 @@ def guarded(fn: Any, ctx: Any, on_timeout: Any, on_error: Any = None) -> Any:
 
 def budgets(ctx: Any) -> tuple[float, float]:
 	"""(per-case seconds, wall deadline seconds of one stream/search)"""
-	return (120.0, 900.0) if ctx.thorough else (30.0, 80.0)
+	return (120.0, 900.0) if ctx.thorough else (60.0, 80.0)
